@@ -89,6 +89,7 @@ type recorder struct {
 	errs     []M
 	scripted error
 	rw       http.ResponseWriter
+	preset   string // Content-Type an upstream middleware puts on every response ("" = none)
 }
 
 var cur *recorder
@@ -202,6 +203,10 @@ func build(d M) (*built, error) {
 		api.RegisterOperation(m, "/op", runtime.OperationHandlerFunc(func(interface{}) (interface{}, error) { return b.outcome() }))
 	}
 	realm := drv.Str(d["realm"])
+	// the default realm is a package variable: the authenticators are built while it has the case's value,
+	// afterwards it is reassigned (another API instance configuring its own default)
+	security.DefaultRealmName = drv.Str(d["defrealm"])
+	defer func() { security.DefaultRealmName = "reassigned-later" }()
 	check := func(user, pass string) (interface{}, error) {
 		if user == "u" && pass == "p" {
 			return "principal", nil
@@ -232,8 +237,21 @@ func build(d M) (*built, error) {
 		errors.ServeError(rw, r, err)
 	}
 	b.ctx = middleware.NewContext(ld, api, nil)
-	b.handler = b.ctx.RoutesHandler(nil)
+	// an upstream Builder middleware that installs site-wide response headers, possibly a Content-Type
+	b.handler = b.ctx.RoutesHandler(func(next http.Handler) http.Handler {
+		return http.HandlerFunc(func(rw http.ResponseWriter, r *http.Request) {
+			presetHeaders(rw)
+			next.ServeHTTP(rw, r)
+		})
+	})
 	return b, nil
+}
+
+func presetHeaders(rw http.ResponseWriter) {
+	if cur != nil && cur.preset != "" {
+		rw.Header().Set("X-Site", "verif")
+		rw.Header().Set("Content-Type", cur.preset)
+	}
 }
 
 type noBinder struct{}
@@ -275,6 +293,7 @@ func request(rm M) *http.Request {
 // ---- execution --------------------------------------------------------------
 
 func execute(c *drv.Ctx, d M) bool {
+	defer func() { security.DefaultRealmName = "API" }()
 	b, err := build(d)
 	if err != nil {
 		panic("c08: cannot build the API: " + err.Error())
@@ -326,7 +345,7 @@ func execute(c *drv.Ctx, d M) bool {
 			}
 			return nil, nil
 		}
-		rec := &recorder{scripted: scripted}
+		rec := &recorder{scripted: scripted, preset: drv.Str(rm["preset"])}
 		rw := httptest.NewRecorder()
 		panicked := false
 		func() {
@@ -342,7 +361,8 @@ func execute(c *drv.Ctx, d M) bool {
 				b.handler.ServeHTTP(rw, req)
 				return
 			}
-			// what a generated operation handler does
+			// what a generated operation handler does (behind the same upstream middleware)
+			presetHeaders(rw)
 			route, rCtx, ok := b.ctx.RouteInfo(req)
 			if !ok {
 				b.handler.ServeHTTP(rw, req) // the router answers (404 / 405)
@@ -383,7 +403,7 @@ func execute(c *drv.Ctx, d M) bool {
 			body = ""
 		}
 		c.W.Event("respond", M{"entry": rm["entry"], "method": rm["method"], "target": rm["target"], "creds": rm["creds"],
-			"keycreds": rm["keycreds"], "declared": drv.Map(d["declared"])[drv.Str(rm["method"])],
+			"keycreds": rm["keycreds"], "preset": drv.Str(rm["preset"]), "declared": drv.Map(d["declared"])[drv.Str(rm["method"])],
 			"accept": rm["accept"], "outcome": out, "status": rw.Code, "ctype": rw.Header().Get("Content-Type"),
 			"produced": nn(rec.produced), "given": given, "body": asciiOnly(body), "errs": nn(rec.errs),
 			"wwwauth": asciiOnly(rw.Header().Get("WWW-Authenticate")), "panic": panicked})
@@ -505,14 +525,23 @@ func descriptor(declaredProduces, routeOrder []entry, def entry, registry []stri
 		rp = append(rp, e.JSON())
 	}
 	return M{"produces": ps, "route_produces": rp, "default": def.JSON(), "registry": registry, "declared": declared,
-		"where": []string{"op", "global"}[idx%2], "ids": (idx/2)%2 == 0, "secure": "none", "realm": "", "authkind": 0, "reqs": []M{}}
+		"where": []string{"op", "global"}[idx%2], "ids": (idx/2)%2 == 0, "secure": "none", "realm": "", "defrealm": []string{"API", "First"}[(idx/3)%2], "authkind": 0, "reqs": []M{}}
 }
 
+var reqCount int
+
+// every third request runs behind an upstream middleware that pre-sets a Content-Type on the response
 func req(entryPoint, method, target, creds string, accept any, outcome M) M {
-	return M{"entry": entryPoint, "method": method, "target": target, "creds": creds, "keycreds": "", "accept": accept, "outcome": outcome}
+	reqCount++
+	preset := ""
+	if reqCount%3 == 0 {
+		preset = "text/x-site-default"
+	}
+	return M{"preset": preset, "entry": entryPoint, "method": method, "target": target, "creds": creds, "keycreds": "", "accept": accept, "outcome": outcome}
 }
 
 func generate(c *drv.Ctx) {
+	reqCount = 0
 	thorough := c.Tier == "thorough"
 	maxProduces := 2
 	if thorough {
